@@ -19,7 +19,32 @@ fn culprit(run: &SeqRun) -> &'static str {
     let changed = a.weights.iter().any(|w| b.weight_of_id(w.0).map(|x| x != w.3).unwrap_or(false));
     let added = a.weights.iter().any(|w| b.weight_of_id(w.0).is_none());
     match &c.op {
-        Op::Upsert { .. } if !is_put_path(c) && changed => "weight-update-of-existing-key",
+        Op::Upsert { k, w, ttl_ms, remove_ttl, .. } if !is_put_path(c) && changed => {
+            // the recorded defect (no bound check) has an exact shape: the key ends up charged with exactly the
+            // requested weight and the total moved by exactly the difference. Anything else is a different bug.
+            let (old_entry, new_entry) = (b.entry(*k), a.entry(*k));
+            let ok = match (old_entry, new_entry) {
+                (Some(oe), Some(ne)) if oe.2 == ne.2 => {
+                    let old = b.weight_of_id(oe.2).unwrap_or(0);
+                    let requested = match w {
+                        Some(w) => Some(*w),
+                        None if ttl_ms.is_some() && oe.3.is_none() => Some(old + 24),
+                        None if *remove_ttl && oe.3.is_some() => Some(old - 24),
+                        None => None,
+                    };
+                    match requested {
+                        Some(r) => a.weight_of_id(ne.2) == Some(r) && a.weight_used - b.weight_used == r - old && a.weights.len() == b.weights.len(),
+                        None => false,
+                    }
+                }
+                _ => false,
+            };
+            if ok {
+                "weight-update-of-existing-key"
+            } else {
+                "miscounted-weight-update"
+            }
+        }
         Op::Put { .. } if added => "put",
         Op::Upsert { .. } if added => "upsert-as-put",
         Op::Delete { .. } => "delete",
@@ -105,14 +130,18 @@ fn seq_spec(ctx: &Ctx, w: i64) -> SeqSpec {
 fn ilv_oracle() -> Oracle {
     Arc::new(|run: &Run, out: &mut Vec<crate::harness::ilv::Finding>| {
         for h in &run.monitor_hits {
-            // attribute: which command was the worker executing when the total left the range?
-            let via = if h.contains("during=UpdateWeight") { "weight-update-of-existing-key" } else { "other" };
-            out.push(crate::harness::ilv::Finding::new("total-out-of-range-at-some-instant", format!("weight:total>limit:via-{}", via), h.clone()));
+            // attribute: which command was the worker executing when the total left the range, and in which direction?
+            // (the concurrent programs never request a weight that does not fit, so the recorded sequential
+            // finding can not show up here: every hit is reported under its own signature)
+            let via = if h.contains("during=UpdateWeight") { "during-UpdateWeight" } else { "other" };
+            let dir = if h.contains("weight_used=-") { "total<0" } else { "total>limit" };
+            out.push(crate::harness::ilv::Finding::new("total-out-of-range-at-some-instant", format!("weight:{}:via-{}", dir, via), h.clone()));
         }
         for (o, when) in [(&run.obs_end, "at the end of the window"), (&run.obs_post, "after the probe")] {
             if (o.weight_used > o.max_weight || o.weight_used < 0) && run.monitor_hits.is_empty() {
                 let via = "unobserved-by-monitor";
-                out.push(crate::harness::ilv::Finding::new("total-out-of-range", format!("weight:total>limit:via-{}", via), format!("{}: total weight {} with limit {}", when, o.weight_used, o.max_weight)));
+                let dir = if o.weight_used < 0 { "total<0" } else { "total>limit" };
+                out.push(crate::harness::ilv::Finding::new("total-out-of-range", format!("weight:{}:via-{}", dir, via), format!("{}: total weight {} with limit {}", when, o.weight_used, o.max_weight)));
             }
         }
     })
@@ -149,13 +178,10 @@ pub fn def(ctx: &Ctx) -> PropertyDef {
     let workers = ctx.workers;
     for p in ilv_programs() {
         let three = p.threads.len() >= 3;
-        scenarios.push(program_scenario(p, ilv_oracle(), move |_c| IlvCfg {
-            bounds: if quick { if three { vec![0, 1] } else { vec![0, 1, 2] } } else { vec![0, 1, 2, 3] },
-            workers,
-            split_depth: 6,
-            time_cap_s: Some(if quick { 8.0 } else { 400.0 }),
-            max_executions: None,
-        }));
+        scenarios.push({
+                let nthreads = p.threads.len();
+                program_scenario(p, ilv_oracle(), move |c| crate::harness::ilv::tier_cfg(c, nthreads))
+            });
     }
     PropertyDef {
         id: "C01",
